@@ -8,8 +8,9 @@ RULE = ("DCOMPAT <sidW> <schemaW> <sidR> <schemaR> <def> <value> <expected>: pai
         "version (presence combinations x leaf values) is encoded by the writer type and decoded by the reader type, in both directions, by the "
         "real derive output and by the Coq model. O=: the reader obtains exactly migrate(value) (shared fields equal, optionals unknown to the "
         "writer None, unknown fields ignored, unknown variant in an optional field None with every sibling intact) and consumes all bytes; for "
-        "writers lacking a mandatory field the reader must fail (missing value where the position is absent). Known classes f9 / f10 are "
-        "recomputed from schema and value by the generator (k= token).")
+        "writers lacking a mandatory field the reader must fail (missing value where the position is absent). The fixed pairs f9o/f9n (index_only "
+        "enum gains a variant), rgo/rgn (regular enum) and f10o/f10n (tagged optional at an index gap) are regression cases of the repaired "
+        "findings F9 / F10; no known class remains in this stream besides alias (F14, k= token computed by the generator).")
 ASSUMPTIONS = ["an index never changes its type across versions; encodings (array/map) are not changed by an edit", "same grammar limits as C08"]
 
 def generate(tier, rng):
